@@ -21,6 +21,7 @@ const c10Timeout = 4 * time.Second
 //
 //	B = T | (repeat k T): k consecutive copies of the bootstrap tree T (each copy is built as its own tree)
 //	cpus: the thread count given to FBP / TBE (default 1)
+//	ids:  how the feeder numbers the trees (Trees.Id), see c10idPolicy
 //
 //	mode nil (or absent): FBP and TBE, each on fresh copies of (ref, boots), Supporter = nil
 //	                      (what the commands pass);            obs ((fbp RUN) (tbe RUN))
@@ -37,8 +38,47 @@ const c10Timeout = 4 * time.Second
 // arrive through a buffered channel of tree.Trees that is closed at the end; for TBE
 // the reference indexes are initialised by the caller and the options are the defaults of the
 // command (no raw tree, no moved-taxa log, cutoff 0.3).
+// c10idPolicy: the Trees.Id given to the i-th bootstrap tree of a call, from the id policy of the case:
+// (ids seq) 0,1,2,... as ReadMultiTrees on one file (default); (ids zero) all 0 (a channel built
+// through the API without setting Id); (ids (restart k)) 0..k-1,0..k-1,... (files concatenated);
+// (ids (rand seed)) arbitrary small ids with duplicates; (ids dec) n-1,...,0.
+func c10idPolicy(c *Sexp) func(i, n int) int {
+	v := c.Get("ids")
+	if v == nil {
+		return func(i, n int) int { return i }
+	}
+	if !v.IsList {
+		switch v.Atom {
+		case "zero":
+			return func(i, n int) int { return 0 }
+		case "dec":
+			return func(i, n int) int { return n - 1 - i }
+		}
+		return func(i, n int) int { return i }
+	}
+	if len(v.List) == 2 {
+		k := 1
+		fmt.Sscanf(v.List[1].Atom, "%d", &k)
+		if k < 1 {
+			k = 1
+		}
+		switch v.List[0].Atom {
+		case "restart":
+			return func(i, n int) int { return i % k }
+		case "rand":
+			return func(i, n int) int {
+				x := uint64(i+1)*6364136223846793005 + uint64(k)*1442695040888963407
+				x ^= x >> 29
+				return int(x % 5)
+			}
+		}
+	}
+	return func(i, n int) int { return i }
+}
+
 func c10(c *Sexp) *Sexp {
 	obs := L()
+	ids := c10idPolicy(c)
 	cpus := 1
 	if c.Get("cpus") != nil {
 		cpus = c.Int("cpus")
@@ -51,21 +91,21 @@ func c10(c *Sexp) *Sexp {
 		return c10family(c.Int("m"), c.Int("g"))
 	case "chain":
 		sup := support.NewSupporter()
-		obs.List = append(obs.List, KV("first", c10run(c.Str("alg1"), c.Get("ref"), c.Get("boots"), sup, cpus)))
-		obs.List = append(obs.List, KV("second", c10run(c.Str("alg2"), c.Get("ref2"), c.Get("boots2"), sup, cpus)))
+		obs.List = append(obs.List, KV("first", c10run(c.Str("alg1"), c.Get("ref"), c.Get("boots"), sup, cpus, ids)))
+		obs.List = append(obs.List, KV("second", c10run(c.Str("alg2"), c.Get("ref2"), c.Get("boots2"), sup, cpus, ids)))
 	case "fresh":
 		for _, alg := range []string{"fbp", "tbe"} {
-			obs.List = append(obs.List, KV(alg, c10run(alg, c.Get("ref"), c.Get("boots"), support.NewSupporter(), cpus)))
+			obs.List = append(obs.List, KV(alg, c10run(alg, c.Get("ref"), c.Get("boots"), support.NewSupporter(), cpus, ids)))
 		}
 	default:
 		for _, alg := range []string{"fbp", "tbe"} {
-			obs.List = append(obs.List, KV(alg, c10run(alg, c.Get("ref"), c.Get("boots"), nil, cpus)))
+			obs.List = append(obs.List, KV(alg, c10run(alg, c.Get("ref"), c.Get("boots"), nil, cpus, ids)))
 		}
 	}
 	return obs
 }
 
-func c10run(alg string, refS, bl *Sexp, sup *support.Supporter, cpus int) *Sexp {
+func c10run(alg string, refS, bl *Sexp, sup *support.Supporter, cpus int, ids func(i, n int) int) *Sexp {
 	ref, err := BuildTree(refS)
 	if err != nil {
 		return L(KV("panic", A("build ref: "+err.Error())))
@@ -103,7 +143,7 @@ func c10run(alg string, refS, bl *Sexp, sup *support.Supporter, cpus int) *Sexp 
 	ch := make(chan tree.Trees, 10)
 	go func() {
 		for i, b := range boots {
-			ch <- tree.Trees{Tree: b, Id: i, Err: nil}
+			ch <- tree.Trees{Tree: b, Id: ids(i, len(boots)), Err: nil}
 		}
 		close(ch)
 	}()
